@@ -158,7 +158,7 @@ func c09Guard(p *Prog, r *Report) {
 			if recv := paramObjs(it.FI)[-1]; recv != nil {
 				// the enclosing method's own receiver is opaque
 				if outer := paramObjs(fi)[-1]; outer != nil {
-					env.Vars[outer] = &Val{Ptr: &Val{Fields: map[string]*Val{"l": {Tag: "list"}}}}
+					env.Vars[outer] = &Val{Ptr: &Val{Fields: map[string]*Val{fileFields.List: {Tag: "list"}}}}
 				}
 				rv, err := env.Eval(sel.X)
 				if err != nil {
@@ -168,7 +168,7 @@ func c09Guard(p *Prog, r *Report) {
 				env.Vars[recv] = rv
 			}
 		} else if outer := paramObjs(fi)[-1]; outer != nil {
-			env.Vars[outer] = &Val{Ptr: &Val{Fields: map[string]*Val{"l": {Tag: "list"}}}}
+			env.Vars[outer] = &Val{Ptr: &Val{Fields: map[string]*Val{fileFields.List: {Tag: "list"}}}}
 		}
 		// helpers of the walker are spliced in, the list's own methods are not (Front is answered by the scenario)
 		f := p.FlatInlExcept(it.FI, p.methodsOf("internal/model/core", "List")...)
@@ -373,7 +373,30 @@ func c09OnePop(p *Prog, r *Report) {
 
 func c09Mirror(p *Prog, r *Report) {
 	// who writes the structure fields
-	owners := map[string]string{"arr": "file", "l": "file", "withoutSearch": "", "root": "List", "next": "Node", "prev": "Node", "link": "Node"}
+	// (the owner of a field is the struct type that declares it; the list also owns the links of its nodes.
+	// Nothing here depends on the names of the types or fields.)
+	declaring := map[*types.Var]*types.TypeName{}
+	for _, tn := range p.named {
+		if tn.Pkg() == nil || shortPath(tn.Pkg().Path()) != "internal/model/core" {
+			continue
+		}
+		nt, ok := tn.Type().(*types.Named)
+		if !ok {
+			continue
+		}
+		if st, ok := nt.Underlying().(*types.Struct); ok {
+			for i := 0; i < st.NumFields(); i++ {
+				declaring[st.Field(i)] = tn
+			}
+		}
+	}
+	// list-structure fields: fields of the per-key list type, of List and of Node whose type is a node pointer,
+	// a List, or a slice of node pointers (the search mirror)
+	structural := func(fv *types.Var) bool {
+		ts := fv.Type().String()
+		return strings.Contains(ts, "core.Node[") || strings.Contains(ts, "core.List[")
+	}
+	listTypeName := "List"
 	n := 0
 	for _, k := range sortedFuncKeys(p) {
 		fi := p.Funcs[k]
@@ -402,10 +425,14 @@ func c09Mirror(p *Prog, r *Report) {
 				if !ok || !fv.IsField() || fv.Pkg() == nil || shortPath(fv.Pkg().Path()) != "internal/model/core" {
 					continue
 				}
-				owner, tracked := owners[fv.Name()]
-				if !tracked || owner == "" {
+				if org := fv.Origin(); org != nil {
+					fv = org
+				}
+				otn := declaring[fv]
+				if otn == nil || !structural(fv) {
 					continue
 				}
+				owner := otn.Name()
 				n++
 				// the writer must be a method of the owning type (the list also owns the links of its sentinel)
 				ok2 := false
@@ -414,11 +441,11 @@ func c09Mirror(p *Prog, r *Report) {
 					if pt, isP := rt.(*types.Pointer); isP {
 						rt = pt.Elem()
 					}
-					if nt, isN := rt.(*types.Named); isN && (nt.Obj().Name() == owner || (nt.Obj().Name() == "List" && (fv.Name() == "next" || fv.Name() == "prev"))) {
+					if nt, isN := rt.(*types.Named); isN && (nt.Obj().Name() == owner || (nt.Obj().Name() == listTypeName && owner == "Node")) {
 						ok2 = true
 					}
 				}
-				r.Check(ok2, "C09.d", k+"#writes "+owner+"."+fv.Name(), p.pos(l), "written by a method of "+owner,
+				r.Check(ok2, "C09.d", k+"#writes "+canonTypeName("internal/model/core." + owner)[len("internal/model/core."):]+"."+fv.Name(), p.pos(l), "written by a method of "+owner,
 					fmt.Sprintf("%s writes %s.%s from outside the type's own methods: the list/array mirror discipline can no longer be established", k, owner, fv.Name()))
 			}
 			return true
@@ -455,7 +482,7 @@ func c09Mirror(p *Prog, r *Report) {
 				break
 			}
 			if sel, ok := x.(*ast.SelectorExpr); ok {
-				return sel.Sel.Name == "arr"
+				return sel.Sel.Name == fileFields.Arr
 			}
 			if o := objOf(info, x); o != nil && f.Alias != nil {
 				if al, ok := f.Alias[o]; ok {
@@ -486,7 +513,7 @@ func c09Mirror(p *Prog, r *Report) {
 					continue
 				}
 				env := &Env{P: p, Pkg: fi.Pkg, Vars: map[types.Object]*Val{}}
-				env.Vars[recv] = &Val{Ptr: &Val{Fields: map[string]*Val{"withoutSearch": boolVal(!searchable), "arr": {Tag: "arr"}, "l": {Tag: "l"}}}}
+				env.Vars[recv] = &Val{Ptr: &Val{Fields: map[string]*Val{fileFields.Flag: boolVal(!searchable), fileFields.Arr: {Tag: "arr"}, fileFields.List: {Tag: "l"}}}}
 				for _, fld := range fi.Decl.Type.Params.List {
 					for _, nm := range fld.Names {
 						env.Vars[info.Defs[nm]] = &Val{Ptr: &Val{Tag: "node"}}
@@ -998,7 +1025,7 @@ func c17Clamp(p *Prog, r *Report) {
 func arrShape(info *types.Info, e ast.Expr) string {
 	return arrShapeWith(info, e, func(x ast.Expr) bool {
 		sel, ok := ast.Unparen(x).(*ast.SelectorExpr)
-		return ok && sel.Sel.Name == "arr"
+		return ok && sel.Sel.Name == fileFields.Arr
 	})
 }
 
